@@ -404,6 +404,8 @@ func judge(res *histResult, b *vlib.Batch, build string) {
 		if len(fs) == 0 {
 			inconcl = append(inconcl, "stopped online ("+res.Aborted+") but no oracle explains it")
 		}
+	case res.NoQuiesce:
+		b.Count("histories_decided_at_plan_idle_point", 1)
 	case !res.Quiescent:
 		if !res.Partial {
 			inconcl = append(inconcl, "no logical quiescence within the watchdog")
